@@ -29,6 +29,7 @@ func (w *World) extraChecks(id string, opts *RunOpts) *Extra {
 	if id == "C14" {
 		w.boundedC14(opts, ex)
 	}
+	w.callOrder(id, opts, ex)
 	if id == "C12" {
 		w.mapRanges(opts, ex)
 	}
